@@ -841,6 +841,17 @@ func (base *Type) mixin(derived *Type) {
 
 	if derived.enums == nil {
 		derived.enums = base.enums
+	} else {
+		// a derived type lists the enums it keeps, each with the value it has in the base
+		// type (RFC7950 Sec 9.6.4.2)
+		for _, e := range derived.enums {
+			for _, b := range base.enums {
+				if b.ident == e.ident && !e.valSet {
+					e.val = b.val
+					e.valSet = true
+				}
+			}
+		}
 	}
 	if len(derived.base) == 0 {
 		derived.base = base.base
@@ -867,11 +878,19 @@ func (base *Type) mixin(derived *Type) {
 		derived.fractionDigits = base.fractionDigits
 	}
 
-	// merge bits
+	// a derived type lists the bits it keeps, each at the position it has in the base
+	// type (RFC7950 Sec 9.7.4.2)
 	if derived.bits == nil {
 		derived.bits = base.bits
-	} else if base.bits != nil {
-		derived.bits = append(derived.bits, base.bits...)
+	} else {
+		for _, d := range derived.bits {
+			for _, b := range base.bits {
+				if b.ident == d.ident && !d.positionSet {
+					d.Position = b.Position
+					d.positionSet = true
+				}
+			}
+		}
 	}
 
 	derived.format = base.format
